@@ -22,7 +22,7 @@ import (
 
 type FuncLocals struct {
 	Params []string          `json:"params"`
-	Locals map[string]string `json:"locals"` // name -> signature#ordinal
+	Locals map[string][]string `json:"locals"` // name -> signature#ordinal of each declaration, in source order
 }
 
 var baseLocals map[string]*FuncLocals
@@ -116,25 +116,23 @@ func localSignature(a *ssa.Alloc) string {
 	return typeName(t) + "|" + strings.Join(ss, ",")
 }
 
-// localTable: name -> signature#ordinal (for a name declared several times the first declaration), and the
-// inverse for lookup.
-func localTable(fn *ssa.Function) (byName map[string]string, bySig map[string]*ssa.Alloc) {
-	byName, bySig = map[string]string{}, map[string]*ssa.Alloc{}
+// localTable: name -> signature#ordinal of every declaration of that name (a type-switch variable is declared
+// once per case), and the inverse for lookup.
+func localTable(fn *ssa.Function) (byName map[string][]string, bySig map[string]*ssa.Alloc) {
+	byName, bySig = map[string][]string{}, map[string]*ssa.Alloc{}
 	count := map[string]int{}
 	for _, a := range namedLocals(fn) {
 		sig := localSignature(a)
 		key := fmt.Sprintf("%s#%d", sig, count[sig])
 		count[sig]++
 		bySig[key] = a
-		if _, dup := byName[a.Comment]; !dup {
-			byName[a.Comment] = key
-		}
+		byName[a.Comment] = append(byName[a.Comment], key)
 	}
 	return
 }
 
 func funcLocalsOf(fn *ssa.Function) *FuncLocals {
-	fl := &FuncLocals{Locals: map[string]string{}}
+	fl := &FuncLocals{Locals: map[string][]string{}}
 	for _, p := range fn.Params {
 		fl.Params = append(fl.Params, p.Name())
 	}
@@ -168,16 +166,16 @@ func renamedParams(fn *ssa.Function) map[string]*ssa.Parameter {
 	return out
 }
 
-var renamedLocalsMemo = map[*ssa.Function]map[string]*ssa.Alloc{}
+var renamedLocalsMemo = map[*ssa.Function]map[string][]*ssa.Alloc{}
 
 // renamedLocals: old name -> the allocation that now plays its part (only for names that are gone, and only
 // when the match is unambiguous and the candidate's own name is new).
-func renamedLocals(fn *ssa.Function) map[string]*ssa.Alloc {
+func renamedLocals(fn *ssa.Function) map[string][]*ssa.Alloc {
 	if m, ok := renamedLocalsMemo[fn]; ok {
 		return m
 	}
 	loadBaseLocals()
-	var out map[string]*ssa.Alloc
+	var out map[string][]*ssa.Alloc
 	if bl := baseLocals[specName(fn)]; bl != nil {
 		byName, bySig := localTable(fn)
 		now := map[string]bool{}
@@ -194,16 +192,19 @@ func renamedLocals(fn *ssa.Function) map[string]*ssa.Alloc {
 		for _, n := range bl.Params {
 			known[n] = true
 		}
-		for old, key := range bl.Locals {
+		for old, keys := range bl.Locals {
 			if now[old] {
 				continue
 			}
-			if a := bySig[key]; a != nil && !known[a.Comment] {
-				if out == nil {
-					out = map[string]*ssa.Alloc{}
+			for _, key := range keys {
+				if a := bySig[key]; a != nil && !known[a.Comment] {
+					if out == nil {
+						out = map[string][]*ssa.Alloc{}
+					}
+					out[old] = append(out[old], a)
 				}
-				out[old] = a
 			}
+			sort.SliceStable(out[old], func(i, j int) bool { return out[old][i].Pos() < out[old][j].Pos() })
 		}
 	}
 	renamedLocalsMemo[fn] = out
